@@ -37,6 +37,7 @@ class VirtualLoop(asyncio.SelectorEventLoop):
         super().__init__(selector=None)
         self._vtime = 0.0
         self._seq = itertools.count()
+        self._vseqs = {}            # id(timer handle) -> creation sequence number (handles are alive while scheduled)
         self.quiescent = False
 
     def time(self):
@@ -44,7 +45,7 @@ class VirtualLoop(asyncio.SelectorEventLoop):
 
     def call_at(self, when, callback, *args, context=None):
         h = super().call_at(when, callback, *args, context=context)
-        h._vseq = next(self._seq)
+        self._vseqs[id(h)] = next(self._seq)
         return h
 
     def _run_once(self):
@@ -63,12 +64,13 @@ class VirtualLoop(asyncio.SelectorEventLoop):
         # fire the timers due now in creation order
         due = [h for h in self._scheduled if not h._cancelled and h._when <= self._vtime]
         if due:
-            due.sort(key=lambda h: (h._when, getattr(h, "_vseq", 0)))
+            due.sort(key=lambda h: (h._when, self._vseqs.get(id(h), 0)))
             rest = [h for h in self._scheduled if h not in due and not h._cancelled]
             heapq.heapify(rest)
             self._scheduled = rest
             for h in due:
                 h._scheduled = False
+                self._vseqs.pop(id(h), None)
                 self._ready.append(h)
         # run exactly the callbacks that are ready now (what BaseEventLoop._run_once does after selecting)
         ntodo = len(self._ready)
